@@ -15,46 +15,45 @@
 (***************************************************************************)
 EXTENDS TexMachine, TexContract, Json
 
-CONSTANTS Words,      \* set of words (Seq(Char)) of the alphabet
-          MaxWords,   \* maximal number of words per source
+CONSTANTS Scopes,     \* sequence of [w |-> set of words (Seq(Char)), n |-> maximal number of words per source]
           Sources,    \* set of complete sources (used instead of / besides the alphabet)
           UserSkip    \* skip_envs option of every run
 
-VARIABLES nwords, run, src0, resA, resB, devs
-svars == <<nwords, run, src0, resA, resB, devs>>
+VARIABLES scope, nwords, run, src0, resA, resB, devs
+svars == <<scope, nwords, run, src0, resA, resB, devs>>
 vars == <<mvars, svars>>
 
 NoRes == [o |-> "none", out |-> <<>>, tree |-> <<>>, toks |-> <<>>, steps |-> 0]
 CurRes == [o |-> outcome, out |-> Out, tree |-> root, toks |-> toks, steps |-> steps]
 
-Init == /\ MInit /\ nwords = 0 /\ run = "gen" /\ src0 = <<>> /\ resA = NoRes /\ resB = NoRes /\ devs = {}
+Init == /\ MInit /\ scope \in 0..Len(Scopes) /\ nwords = 0 /\ run = "gen" /\ src0 = <<>> /\ resA = NoRes /\ resB = NoRes /\ devs = {}
 
-Extend == /\ run = "gen" /\ nwords < MaxWords
-          /\ \E w \in Words : input' = input \o w
+Extend == /\ run = "gen" /\ scope > 0 /\ nwords < Scopes[scope].n
+          /\ \E w \in Scopes[scope].w : input' = input \o w
           /\ nwords' = nwords + 1
-          /\ UNCHANGED <<phase, tol, uskip, pos, toks, tp, stack, outcome, root, steps, run, src0, resA, resB, devs>>
+          /\ UNCHANGED <<scope, phase, tol, uskip, pos, toks, tp, stack, outcome, root, steps, run, src0, resA, resB, devs>>
 
-StartA(src) == /\ ResetRun(src, 0, UserSkip) /\ src0' = src /\ run' = "A" /\ nwords' = 0
+StartA(src) == /\ ResetRun(src, 0, UserSkip) /\ src0' = src /\ run' = "A" /\ nwords' = 0 /\ scope' = 0
                /\ UNCHANGED <<resA, resB, devs>>
-Start == /\ run = "gen" /\ StartA(input)
-Pick == /\ run = "gen" /\ input = <<>> /\ nwords = 0 /\ \E s \in Sources : StartA(s)
+Start == /\ run = "gen" /\ scope > 0 /\ StartA(input)
+Pick == /\ run = "gen" /\ scope = 0 /\ input = <<>> /\ nwords = 0 /\ \E s \in Sources : StartA(s)
 
 (* deviations of the current run that matter for side conditions *)
 StepM == /\ run \in {"A", "B", "C"} /\ MNext
-         /\ devs' = IF run = "A" /\ phase = "parse" /\ Top.f = "CMD" /\ Top.pc \in {"req1", "req2"}
+         /\ devs' = IF run \in {"A", "B"} /\ phase = "parse" /\ Top.f = "CMD" /\ Top.pc \in {"req1", "req2"}
                        /\ Top.nreq > 0 /\ HasNext(tp)
-                       /\ (LET j == IF TC(tp) = "Sp" THEN tp + 1 ELSE tp IN HasNext(j) /\ TC(j) \notin {"GB", "Esc"})
-                    THEN devs \cup {"Rebrace"} ELSE devs
-         /\ UNCHANGED <<nwords, run, src0, resA, resB>>
+                       /\ (LET j == IF TC(tp) = "Sp" THEN tp + 1 ELSE tp IN HasNext(j) /\ TC(j) # "GB")
+                    THEN devs \cup {"BareArg"} ELSE devs
+         /\ UNCHANGED <<scope, nwords, run, src0, resA, resB>>
 
 NextRun ==
   /\ Terminal
-  /\ \/ /\ run = "A" /\ resA' = CurRes /\ ResetRun(src0, 1, UserSkip) /\ run' = "B" /\ UNCHANGED <<resB, src0, nwords, devs>>
+  /\ \/ /\ run = "A" /\ resA' = CurRes /\ ResetRun(src0, 1, UserSkip) /\ run' = "B" /\ UNCHANGED <<resB, src0, nwords, devs, scope>>
      \/ /\ run = "B" /\ resB' = CurRes
         /\ IF resA.o = "ok" THEN ResetRun(resA.out, 0, UserSkip) /\ run' = "C"
            ELSE run' = "end" /\ UNCHANGED mvars
-        /\ UNCHANGED <<resA, src0, nwords, devs>>
-     \/ /\ run = "C" /\ run' = "end" /\ UNCHANGED <<mvars, resA, resB, src0, nwords, devs>>
+        /\ UNCHANGED <<resA, src0, nwords, devs, scope>>
+     \/ /\ run = "C" /\ run' = "end" /\ UNCHANGED <<mvars, resA, resB, src0, nwords, devs, scope>>
 
 Next == Extend \/ Start \/ Pick \/ StepM \/ NextRun
 Spec == Init /\ [][Next]_vars
@@ -63,7 +62,7 @@ Spec == Init /\ [][Next]_vars
 (* Side conditions of C08 / C16, as functions of the source (through the   *)
 (* reference run A on it).                                                 *)
 (***************************************************************************)
-SC8 == NoIgn(src0) /\ "Rebrace" \notin devs
+SC8 == NoIgn(src0) /\ "BareArg" \notin devs
 SizePrefixBare == \E i \in 2..Len(resA.toks) : resA.toks[i].c = "Name" /\ resA.toks[i].s \in SizePrefix /\ resA.toks[i-1].c = "Esc"
 SC16 == SC8 /\ ~SizePrefixBare
 Final == run = "end"
@@ -88,7 +87,7 @@ C17_LexDeterminism == LexDeterminism
 (* Dump for the replay into the real code                                  *)
 (***************************************************************************)
 FlatT(ts) == [i \in 1..Len(ts) |-> <<N2S(ts[i].p), N2S(Len(ts[i].s)), ts[i].c>>]
-ResJ(r) == [o |-> r.o, out |-> r.out, flat |-> FlatSeq(r.tree)]
+ResJ(r) == [o |-> r.o, out |-> r.out, flat |-> FlatSeq(r.tree), steps |-> r.steps]
 Rec == [i |-> src0, A |-> ResJ(resA), B |-> ResJ(resB),
         C |-> IF resA.o = "ok" THEN ResJ(ResC) ELSE ResJ(NoRes),
         toks |-> FlatT(resA.toks), sc8 |-> SC8, sc16 |-> SC16]
